@@ -173,17 +173,22 @@ def run_job(mon, ctx, job, rnd):
         zh = AO.zero_mark_hundredths(g, e, mon.live)
         k = AO.kind_of(e)
         top = zh + 60 if k == 't' else (1200 if k == 'j' else 11000)
-        ages = [None, 35, 50, 70, 90, 110]
+        ages = [35, 50, 70, 90, 110]
+        plain = list(windows(0, top, tier, rnd, centres=(zh,), width=400))
+        # history hazard (shared coefficient rows, memo tables): even marks are scored before, odd marks
+        # after the age-adjusted and ESAA calls, so every adjacent pair straddles them
+        for n in plain:
+            if n % 2 == 0:
+                attach.call(f, g, e, n / 100)
         for age in ages:
-            ms = windows(0, top, tier if age is None else 'quick', rnd, centres=(zh,), width=400)
-            for n in ms:
-                if age is None:
-                    attach.call(f, g, e, n / 100)
-                else:
-                    attach.call(f, g, e, n / 100, age=age)
+            for n in windows(0, top, 'quick', rnd, centres=(zh,), width=400):
+                attach.call(f, g, e, n / 100, age=age)
         if (g, e) == ('M', '800'):
             for n in windows(0, top, tier, rnd, centres=(zh, 20000), width=400):
                 attach.call(f, g, e, n / 100, esaa=True)
+        for n in plain:
+            if n % 2:
+                attach.call(f, g, e, n / 100)
     elif job[0] == 'hungarian':
         _, g, io, ev = job
         f = mon.hm.score
